@@ -16,6 +16,7 @@ CONSTANTS
   Emit = TRUE
   ConstSd = 0
   NGaps = 7
+  WeakVariant = ""
 INIT Init
 NEXT Next
 CONSTRAINT Leaf
